@@ -138,15 +138,30 @@ def run(tier, seed):
     rng = random.Random(seed)
     cases = []
     exhaustive = tier == "thorough"
+    def rekey(conds):
+        """non-default keys (sub-base that kept its parent's keys, sparse, 0-based): key
+        arithmetic of the fact conditionals must not collide with them"""
+        style = rng.randrange(4)
+        ks = list(conds)
+        if style == 0:
+            return conds
+        if style == 1:
+            new = [k + 1 for k in ks]  # e.g. {2,3}: len+1 is an existing key
+        elif style == 2:
+            new = [k - 1 for k in ks]  # 0-based
+        else:
+            new = sorted(rng.sample(range(1, 3 * len(ks) + 3), len(ks)))
+        return {nk: conds[k] for nk, k in zip(new, ks)}
+
     for sig, conds in s2_bases(rng, exhaustive, 500):
         facts = rng.choice(FACTS2)
-        cases.append((sig, texts_of(conds), facts, rng.randrange(1000)))
+        cases.append((sig, texts_of(rekey(conds)), facts, rng.randrange(1000)))
     # the empty base
     cases.append((ATOMS2, {}, [], 0))
     for _ in range(1500 if exhaustive else 300):
         sig, conds = s3_base(rng, consts=0.12)
         facts = rng.choice([[], [rng.choice(sig)], ["!" + rng.choice(sig), rng.choice(sig)]])
-        cases.append((sig, texts_of(conds), facts, rng.randrange(1000)))
+        cases.append((sig, texts_of(rekey(conds)), facts, rng.randrange(1000)))
     res = merge(pmap(_case, cases))
     res["scope"] = f"S2 {'exhaustive' if exhaustive else 'sample 500'} + S3 {1500 if exhaustive else 300} bases x both modes x object/key variants x diagnostics with fact lists x refusal by every operator"
     res["samples"] = [dict(signature=c[0], conditionals=c[1], facts=c[2]) for c in cases[:2]]
